@@ -8,6 +8,7 @@ from __future__ import annotations
 import datetime
 import importlib
 import math
+import os
 import random
 import warnings
 
@@ -1001,14 +1002,14 @@ def run(ctx):
                    nfail == 0, f"{nfail} failing cases")
     ctx.extra["oracle_failures_in_known_finding_class"] = nknown
     ctx.extra["cases_above_upper_limit_known_finding_U1"] = nu1
-    for f in ctx.build.glob("cases_*.v*"):
+    for f in ctx.build.glob(f"cases_{os.getpid()}_*"):
         f.unlink()
     files = []
     chunk = min(80, max(20, len(terms) // 32 + 1))
     for i in range(0, len(terms), chunk):
         part = terms[i:i + chunk]
         txt = HEADER + "Definition cases : list bool := [\n" + ";\n".join(t for _, _, t in part) + "].\nEval vm_compute in failing cases.\n"
-        f = ctx.build / f"cases_{i // chunk}.v"
+        f = ctx.build / f"cases_{os.getpid()}_{i // chunk}.v"
         f.write_text(txt)
         files.append((f, part))
     res = ctx.coqc_many([f for f, _ in files], jobs=16, timeout=900)
@@ -1024,6 +1025,8 @@ def run(ctx):
             continue
         for i in [int(x) for x in vals[-1].strip("[]").replace("%nat", "").split(";") if x.strip()]:
             mism.append((part[i][0], part[i][1]))
+    for f in ctx.build.glob(f"cases_{os.getpid()}_*"):
+        f.unlink()
     ctx.count(traces=len(terms))
     ctx.obligation("correspondence with the recorded draws: model = implementation (thin exact; bootstrap shape + first "
                    "cells + rank order; moment_match exact on rounded variates)", not mism, repr(mism[:6]))
